@@ -93,6 +93,7 @@ package ice
 //@ func removeRedundantPrflxFromSet
 //@   props C06
 //@   opt nosafety
+//@   opt timeout=40
 //@   loop 1 invariant only-peer-reflexive-candidates-are-taken-out: forall j int :: 0 <= j && j < len(replacedPrflx) ==> baseOf(replacedPrflx[j]).candidateType == CandidateTypePeerReflexive
 //@   loop 1 invariant taken-out-list-is-its-own-array: (cap(replacedPrflx) == 0 || replacedPrflx.base != set.base) && len(set) <= len(set0) && set.base == set0.base && set.off == set0.off
 //@   site call transportAddressEqual#1 assert twin-of-the-newcomer: recv == existing && arg0 == cand
